@@ -113,12 +113,20 @@ def judge_imports(items, info, chk, pc, nwarn):
             else:
                 parts = s.split('-')
                 want.add(''.join(([parts[0][0].upper() + parts[0][1:]] + [p[0].upper() + p[1:] for p in parts[1:]])))
+        # the linker adds the governing type of an imported value to the clause of the module that defines the type
+        want |= set(info.get('assoc', {}).get(modname, ()))
         if wildcard:
             if got != {'*'}:
                 fails.append(('use-line', f"expected wildcard import from {modname}, got {sorted(got)}"))
         elif got != want:
             fails.append(('use-line', f"use line for {modname} names {sorted(got)}, IMPORTS names {sorted(want)}"))
     extra = [u for u in uses if u.startswith('super::') and not any(u.startswith(f"super::{mn.lower().replace('-', '_')}::") for mn, _ in info['imports'])]
+    for modname, tys in info.get('extra_uses', {}).items():
+        pre = f"super::{modname.lower().replace('-', '_')}::"
+        line = [u for u in extra if u.startswith(pre)]
+        if len(line) != 1 or set(line[0][len(pre):].strip('{}').split(',')) != set(tys):
+            fails.append(('use-line', f"the governing type(s) {sorted(tys)} of an imported value must be used from {modname}, which defines them: {uses}"))
+        extra = [u for u in extra if not u.startswith(pre)]
     if extra:
         fails.append(('use-line', f"use lines without IMPORTS: {extra}"))
     # qualified reference resolves to the module
@@ -181,6 +189,31 @@ def import_shapes(tier):
                 text = '\n'.join([a] + mods)
                 sig = f"C12 imports [{','.join(k for _, k in syms)}]{' +2nd' if second else ''}{' wildcard' if wildcard else ''}"
                 out.append((sig, text, {'imports': imports, 'wildcard': wildcard, 'qualified': qual}))
+    # imported values whose governing type is defined in the exporting module (or in a module that one imports it from)
+    # and is not imported itself: the type is used from the module that defines it, whatever the order of the clauses
+    alpha = "Alpha DEFINITIONS AUTOMATIC TAGS ::= BEGIN Kind ::= INTEGER (0..7) Colour ::= ENUMERATED { red, green } default-kind Kind ::= 3 default-colour Colour ::= green END"
+    alpha2 = "Alpha DEFINITIONS AUTOMATIC TAGS ::= BEGIN IMPORTS Kind FROM Gamma; default-kind Kind ::= 3 END"
+    gamma = "Gamma DEFINITIONS AUTOMATIC TAGS ::= BEGIN Kind ::= INTEGER (0..7) END"
+    other = "Other DEFINITIONS AUTOMATIC TAGS ::= BEGIN Misc ::= BOOLEAN END"
+    third = "Third DEFINITIONS AUTOMATIC TAGS ::= BEGIN Aux ::= NULL END"
+    CL = {'Alpha1': ('Alpha', [('default-kind', 'value')]), 'Alpha2': ('Alpha', [('default-kind', 'value'), ('default-colour', 'value')]), 'Other': ('Other', [('Misc', 'type')]), 'Third': ('Third', [('Aux', 'type')])}
+    orders = [['Alpha1'], ['Alpha1', 'Other'], ['Other', 'Alpha1'], ['Other', 'Third', 'Alpha2'], ['Other', 'Alpha2', 'Third'], ['Alpha2', 'Other', 'Third']]
+    for order in orders:
+        for via_third in (False, True):
+            if via_third and 'Alpha2' in order:
+                continue
+            imports = [CL[c] for c in order]
+            imp = ' '.join(', '.join(s for s, _ in syms) + ' FROM ' + mn for mn, syms in imports)
+            body = "Ta ::= SEQUENCE { k INTEGER DEFAULT 1" + (", m Misc" if 'Other' in order else '') + (", a Aux" if 'Third' in order else '') + " }"
+            mods = [alpha2 if via_third else alpha] + ([gamma] if via_third else []) + ([other] if 'Other' in order else []) + ([third] if 'Third' in order else [])
+            text = '\n'.join([f"Ma DEFINITIONS AUTOMATIC TAGS ::= BEGIN IMPORTS {imp}; {body} END"] + mods)
+            tys = {'Kind', 'Colour'} if 'Alpha2' in order else {'Kind'}
+            info = {'imports': imports, 'wildcard': False, 'qualified': None}
+            if via_third:
+                info['extra_uses'] = {'Gamma': tys}
+            else:
+                info['assoc'] = {'Alpha': tys}
+            out.append((f"C12 imported value with governing type clauses[{','.join(order)}]{' type defined in a third module' if via_third else ''}", text, info))
     return out
 
 
